@@ -18,9 +18,15 @@
      asks_owner o     = the request names an explicit mode containing O
      fault_safe (f,o) = f = NoFault or asks_owner o = false
      op_user sm o     = the acting user;  asks_op sm o = the actor's own {sub}/{set sub} with O in the mode;
-     is_set_op sm o t = o is {set sub} naming another user t. *)
+     is_set_op sm o t = o is {set sub} naming another user t;
+     fault_safe_c06x sm (f,o) = fault_safe (f,o) or o is a {set sub} naming another user (any mode, O included):
+                        the only faulted requests left out are the actor's OWN {sub}/{set sub} naming O;
+     acks_c06x fr     = fr is a 200-with-acs or a ctrl below 400.
+   Gate with population (Sys/OwnerGateC06x.v): gate_del_c06x reads the topic category and the
+   subscriber counts exactly as hub.topicUnreg does ((p2p AND count < 2) shortcut). *)
 From Coq Require Import ZArith NArith List Bool.
 From Tinode Require Import Base.Util Pure.Acs Sys.Topic Sys.TopicOwner Sys.TopicOwnerProofs Sys.OwnerGate Sys.OwnerGateProofs.
+From Tinode Require Import Sys.TopicOwnerC06x Sys.OwnerGateC06x Sys.OwnerGateC06xProofs.
 Import ListNotations.
 Open Scope N_scope.
 
@@ -100,6 +106,47 @@ Theorem c06_one_owner_faults_partial : forall s h, sinv s -> hist_ok sm h ->
   store_owners (st x) = [t_owner (st x)] /\
   match ca x with Some c => cache_owners c = [c_owner c] /\ c_owner c = t_owner (st x) | None => True end.
 Proof. exact (run_one_owner dr nr sm). Qed.
+
+(* ---- store faults on the OFFER of ownership ---- *)
+(* A {set sub} naming another user, sent by an attached session, that is not acknowledged (refused,
+   or its store call failed and no reply is sent) grants nothing: the store and the cache are
+   exactly as before - in ANY state, under ANY fault plan.  (anotherUserSub writes the cached
+   given mode only after store.Subs.Update went through.) *)
+Theorem c06_failed_offer_grants_nothing : forall f x sid t mode c,
+  ca x = Some c -> attached c sid = true -> t <> 0 -> t <> sess_uid sm sid ->
+  (forall fr, In (sid, fr) (snd (step dr nr sm f x (OSetSub sid t mode))) -> acks_c06x fr = false) ->
+  st (fst (step dr nr sm f x (OSetSub sid t mode))) = st x /\
+  ca (fst (step dr nr sm f x (OSetSub sid t mode))) = ca x.
+Proof. exact (step_failed_offer_c06x dr nr sm). Qed.
+
+(* The invariant, hence exactly one owner, after every history whose faulted requests are anything
+   but the actor's own {sub}/{set sub} naming O: faulted offers of ownership are covered. *)
+Theorem c06_one_owner_offer_faults : forall s h, sinv s -> hist_ok_c06x sm h ->
+  let x := fst (run dr nr sm (mkState s None 0) h) in
+  store_owners (st x) = [t_owner (st x)] /\
+  match ca x with Some c => cache_owners c = [c_owner c] /\ c_owner c = t_owner (st x) | None => True end.
+Proof. exact (run_one_owner_c06x dr nr sm). Qed.
+
+(* Ownership moves only by the acceptance of a grant that is in the STORE: at a step of such a
+   history topics.owner changes only if the actor asked for O in his own request and his stored live
+   row had O in given (not in want) BEFORE the step; he is then the owner and the previous owner
+   keeps O neither in want nor in given.  With c06_failed_offer_grants_nothing: an offer whose store
+   write failed cannot be accepted. *)
+Theorem c06_transfer_needs_stored_grant : forall x fo,
+  oinv_state sm x -> actor_ok sm (snd fo) -> fault_safe_c06x sm fo ->
+  let x' := fst (step_f dr nr sm x fo) in
+  t_owner (st x') <> t_owner (st x) ->
+  asks_op sm (snd fo) /\ t_owner (st x') = op_user sm (snd fo) /\
+  (exists w g, smode (st x) (op_user sm (snd fo)) = Some (w, g, false) /\ is_owner g = true /\ is_owner w = false) /\
+  (exists w' g', smode (st x') (t_owner (st x)) = Some (w', g', false) /\ is_owner w' = false /\ is_owner g' = false).
+Proof. exact (step_transfer_c06x dr nr sm). Qed.
+
+(* and whoever topics.owner names after such a step has a live stored row with O in want and given *)
+Theorem c06_owner_row_after_step : forall x fo,
+  oinv_state sm x -> actor_ok sm (snd fo) -> fault_safe_c06x sm fo ->
+  let x' := fst (step_f dr nr sm x fo) in
+  exists w g, smode (st x') (t_owner (st x')) = Some (w, g, false) /\ is_owner w = true /\ is_owner g = true.
+Proof. exact (step_owner_stays_c06x dr nr sm). Qed.
 End C06.
 
 (* The full statement over ALL fault plans is REFUTED by the faithful model (known finding
@@ -149,6 +196,26 @@ Theorem c06_owner_readings_agree : forall sm s c u, oinv sm s c ->
   ((exists w g, smode s u = Some (w, g, false) /\ is_owner (N.land w g) = true) <-> u = t_owner s).
 Proof. intros sm s c u I. split; [exact (oinv_cached_owner_iff sm s c u I)|apply sinv_eff_owner_iff; apply I]. Qed.
 
+(* {del what=topic} with the population of the topic (Sys/OwnerGateC06x.v: category, subscriber
+   counts as read by hub.topicUnreg): a GROUP topic is deleted for everybody only at the request of
+   the user the code takes for its owner, whatever the number of subscribers - the "last
+   subscriber" shortcut is the p2p one. *)
+Theorem c06_group_deleted_by_owner_only : forall r code, dx_p2p r = false ->
+  gate_del_c06x r = GAll code -> dx_is_owner r = true /\ code = 200%Z.
+Proof. exact gate_del_group_owner_c06x. Qed.
+
+Theorem c06_del_gate_counts_not_read_on_groups : forall r, dx_p2p r = false ->
+  (dx_subscribed r = true -> dx_count_s r <> 0) -> gate_del_c06x r = gate GDelTopic (dx_greq r).
+Proof. exact gate_del_group_refines_c06x. Qed.
+
+Theorem c06_p2p_last_subscriber_shortcut : forall r, dx_p2p r = true -> dx_loaded r = true -> dx_owner_c r = false ->
+  ((exists code, gate_del_c06x r = GAll code) <-> dx_count_c r < 2).
+Proof. exact gate_del_p2p_loaded_c06x. Qed.
+
+Theorem c06_group_member_only_leaves : forall r, dx_p2p r = false -> dx_is_owner r = false -> dx_subscribed r = true ->
+  dx_count_s r <> 0 -> gate_del_c06x r = GOwn 200%Z.
+Proof. exact gate_del_group_member_c06x. Qed.
+
 Print Assumptions c06_reachable.
 Print Assumptions c06_one_owner.
 Print Assumptions c06_owner_not_demoted_by_others.
@@ -161,6 +228,14 @@ Print Assumptions c06_one_owner_faults_refuted.
 Print Assumptions c06_owner_only_ops.
 Print Assumptions c06_owner_only_ops_set_attached.
 Print Assumptions c06_owner_readings_agree.
+Print Assumptions c06_failed_offer_grants_nothing.
+Print Assumptions c06_one_owner_offer_faults.
+Print Assumptions c06_transfer_needs_stored_grant.
+Print Assumptions c06_owner_row_after_step.
+Print Assumptions c06_group_deleted_by_owner_only.
+Print Assumptions c06_del_gate_counts_not_read_on_groups.
+Print Assumptions c06_p2p_last_subscriber_shortcut.
+Print Assumptions c06_group_member_only_leaves.
 
 (* the hypotheses are satisfiable, and the laws are not vacuous *)
 Example c06_ex_initial_state_ok : sinv c06_w_store /\ hist_ok c06_w_sess [(NoFault, OSub 2 [] false); (NoFault, OSetSub 2 0 c06_w_full)].
@@ -179,4 +254,39 @@ Example c06_ex_gate :
   gate GSetTags (mkGreq true true false false true true) = GNone 403%Z /\
   gate GSetTrusted (mkGreq true true true true true false) = GNone 403%Z /\
   gate (GSetDefacs true) (mkGreq true true true true true false) = GNone 400%Z.
+Proof. repeat split. Qed.
+
+(* a failed offer followed by an acceptance: the history is covered by c06_one_owner_offer_faults
+   (not by c06_one_owner_faults_partial), the acceptance is refused and the owner stays *)
+Definition c06x_w_store : store :=
+  ad_sub_create (ad_sub_create (mkStore true 0 0 0 47 0 [] [] [] [(1, 47); (2, 47)]) 1 255 255) 2 47 47.
+Definition c06x_w_hist : list (fault * op) :=
+  [(NoFault, OSub 1 [] false); (NoFault, OSub 2 [] false); (FailAt 1, OSetSub 1 2 c06_w_full); (NoFault, OSetSub 2 0 c06_w_full)].
+
+Example c06x_ex_failed_offer_hist_ok : hist_ok_c06x c06_w_sess c06x_w_hist /\ ~ hist_ok c06_w_sess c06x_w_hist.
+Proof.
+  split.
+  - unfold hist_ok_c06x, c06x_w_hist.
+    constructor; [split; [cbn; discriminate|left; left; reflexivity]|].
+    constructor; [split; [cbn; discriminate|left; left; reflexivity]|].
+    constructor; [split; [cbn; discriminate|]|].
+    + right. exists 2. exists 1, c06_w_full. cbn. repeat split; discriminate.
+    + constructor; [split; [cbn; discriminate|left; left; reflexivity]|constructor].
+  - intros H. inversion H as [|? ? _ H1]; subst. inversion H1 as [|? ? _ H2]; subst.
+    inversion H2 as [|? ? [_ [F|F]] _]; subst; discriminate F.
+Qed.
+
+Example c06x_ex_failed_offer_then_acceptance :
+  let r := run (fun _ _ => None) (fun x => x) c06_w_sess (mkState c06x_w_store None 0) c06x_w_hist in
+  t_owner (st (fst r)) = 1 /\ store_owners (st (fst r)) = [1] /\ option_map cache_owners (ca (fst r)) = Some [1] /\
+  smode (st (fst r)) 2 = Some (47, 47, false) /\
+  nth 2 (snd r) [] = [] /\ nth 3 (snd r) [] = [(2, Ctrl 403 [])].
+Proof. vm_compute. repeat split. Qed.
+
+Example c06x_ex_gate :
+  gate_del_c06x (mkDreqC06x false true false 1 false false 1) = GNone 304%Z /\
+  gate_del_c06x (mkDreqC06x true true false 1 false false 1) = GAll 200%Z /\
+  gate_del_c06x (mkDreqC06x false true true 1 true true 1) = GAll 200%Z /\
+  gate_del_c06x (mkDreqC06x false false false 0 true false 1) = GOwn 200%Z /\
+  gate_del_c06x (mkDreqC06x true false false 0 true false 1) = GAll 200%Z.
 Proof. repeat split. Qed.
